@@ -161,7 +161,7 @@ pub fn foreign_panics() -> Vec<PanicInfo> {
 /// time forever, although in reality time passes while it spins. The hook
 /// below counts task polls; when `SPIN_POLLS` polls pass without a single
 /// simulation event or draw, it wakes a helper task that advances the
-/// virtual clock (1 ms, doubling up to 1 s while the spin persists).
+/// virtual clock (1 ms, doubling up to 64 ms while the spin persists).
 const SPIN_POLLS: u64 = 1024;
 
 /// `spawn_blocking` work (the XFR middleware's zone walk) runs on a real
@@ -228,7 +228,9 @@ async fn spin_breaker() {
         tokio::time::advance(Duration::from_millis(step)).await;
         sim::sync_clock();
         sim::stat("probe.spin_breaker_advanced_clock");
-        BREAKER_STEP_MS.with(|c| c.set((step * 2).min(1000)));
+        // (An advance jumps over the deadlines inside the step: timers of
+        // other tasks fire late by up to the step. Keep that small.)
+        BREAKER_STEP_MS.with(|c| c.set((step * 2).min(64)));
     }
 }
 
